@@ -331,8 +331,8 @@ static std::vector<c08::Cell> cells(bool T) {
   v.push_back(c08::Cell{1012, 10000, 3, 0, tr});
   v.push_back(c08::Cell{12, 10000, 3, 1, tr});
   // an older sketch merged into a fresh one, then a long stream (section growth after a merge must keep up); k >= 6
-  v.push_back(c08::Cell{1012, T ? 1050000 : 630000, 1, 3, T ? 60 : 14});
-  v.push_back(c08::Cell{20, T ? 1050000 : 420000, 1, 3, T ? 60 : 14});
+  v.push_back(c08::Cell{1012, T ? uint64_t(1050000) : uint64_t(630000), 1, 3, T ? 60 : 14});
+  v.push_back(c08::Cell{20, T ? uint64_t(1050000) : uint64_t(420000), 1, 3, T ? 60 : 14});
   // smallest k
   v.push_back(c08::Cell{1004, 10000, 1, 0, tr});
   v.push_back(c08::Cell{4, 10000, 1, 1, tr});
